@@ -23,8 +23,10 @@ def Inert (s s' : St) : Prop :=
 
 /-! ### responses -/
 
-/-- **response_needs_pending** (one datagram): a success or error response whose transaction id is not
-outstanding changes nothing and completes nothing; one whose id is outstanding is delivered to exactly
+/-- **response_needs_pending** (one datagram; "matches an outstanding transaction" is by the 96-bit transaction
+id ALONE — the code keeps one map for all sockets, sources and request kinds, so a response arriving on any
+socket from any source completes the transaction with that id; what the waiter then does with it is outside
+C06): a success or error response whose transaction id is not outstanding changes nothing and completes nothing; one whose id is outstanding is delivered to exactly
 that waiter, the id is consumed (so a replayed copy is inert), and in neither case is any ICE state
 (candidates, selected pair, nomination, transport state) touched. -/
 theorem response_needs_pending (s : St) (sock : Sock) (src : Addr) (tx : Bytes) (e : Bool) :
@@ -115,15 +117,18 @@ example : let s : St := { role := .controlled, state := .checking, remotes := []
   decide
 
 
-/-- the other consumer of STUN responses in the anchored code, `probe_stun` (server-reflexive gathering):
-it takes a mapped address only from a Binding *success* response carrying the probe's own transaction id
-(holds since the `fix:` commit; before, any decodable datagram from the server's IP with an
-XOR-MAPPED-ADDRESS was taken). -/
+/-- the other consumer of STUN responses in the anchored code, `probe_stun` (server-reflexive gathering).
+A reading of the definition of `probeAccept` (the content is in the `probe` correspondence stream and its
+oracle on the real `probe_stun`): a mapped address is taken only from a datagram that came from the server's IP
+and decodes to a Binding *success* response carrying the probe's own transaction id (since the `fix:`
+commit; before, any decodable datagram from the server's IP with an XOR-MAPPED-ADDRESS was taken). -/
 theorem probe_needs_own_transaction (tx resp : Bytes) (a : Addr) (same : Bool) (h : probeAccept tx resp same = some a) :
-    ∃ d, decode resp = .ok d ∧ d.tx = tx ∧ d.cls = .success ∧ d.method = .binding ∧ d.mapped = some a := by
+    same = true ∧ ∃ d, decode resp = .ok d ∧ d.tx = tx ∧ d.cls = .success ∧ d.method = .binding ∧ d.mapped = some a := by
   unfold probeAccept at h
   split at h
   · simp at h
+  rename_i hs
+  refine ⟨by simpa using hs, ?_⟩
   split at h
   · rename_i d hd
     split at h
@@ -140,83 +145,115 @@ theorem unauth_request_inert_step (s : St) (sock : Sock) (src : Addr) (r : Req) 
     (hr : r.accepted = false) : step s sock src (.request r) = (s, { replied := sock.canSend }) := by
   simp [step, handleRequest_unauth s sock src r hw hr]
 
-/-- STUN "noise" — unaccepted requests (WebRTC mode), undecodable datagrams, indications, empty datagrams,
-responses whose transaction is not outstanding — leaves the WHOLE state unchanged, including the liveness
-timestamp `last_received` and the published socket. -/
-def Noise (s : St) : Inp → Prop
-  | .request r => s.webrtc = true ∧ r.accepted = false
-  | .response tx _ => tx ∉ s.pending
-  | .undecodable | .indication | .empty => True
-  | .data => False
+/-- "noise": what must be without influence — unaccepted requests (WebRTC mode), responses whose
+transaction is not outstanding, undecodable STUN-range datagrams, empty datagrams, and Binding indications and
+media datagrams that do not come from the remote address of the selected pair. It leaves the WHOLE state
+unchanged, including the liveness timestamp `last_received` and the published socket. -/
+def noise (s : St) (src : Addr) : Inp → Bool
+  | .request r => s.webrtc && !r.accepted
+  | .response tx _ => !(s.pending.contains tx)
+  | .undecodable | .empty => true
+  | .indication | .data => !fromSelectedPeer s src
 
-theorem stun_noise_is_identity (s : St) (sock : Sock) (src : Addr) (i : Inp) (h : Noise s i) :
+theorem stun_noise_is_identity (s : St) (sock : Sock) (src : Addr) (i : Inp) (h : noise s src i = true) :
     (step s sock src i).1 = s := by
   cases i with
-  | request r => rw [unauth_request_inert_step s sock src r h.1 h.2]
+  | request r =>
+    simp only [noise, Bool.and_eq_true, Bool.not_eq_eq_eq_not, Bool.not_true] at h
+    rw [unauth_request_inert_step s sock src r h.1 h.2]
   | response tx e =>
-    have hn : tx ∉ s.pending := h
+    have hn : tx ∉ s.pending := by simpa [noise] using h
     simp [step, handleResponse, hn]
-  | data => exact absurd h (by simp [Noise])
-  | undecodable | indication | empty => rfl
+  | data | indication =>
+    have hn : fromSelectedPeer s src = false := by simpa [noise] using h
+    simp [step, hn]
+  | undecodable | empty => rfl
 
 /-! ### histories with keepalive ticks -/
 
-/-- everything that happens to the transport: datagrams, keepalive ticks (with the transaction id the
-tick draws), the clock advancing -/
-inductive HEv where
-  | pkt (sock : Sock) (src : Addr) (i : Inp)
-  | tick (tx : Bytes)
-  | advance (t : Nat)
-
-def hstep (s : St) : HEv → St
-  | .pkt sock src i => (step s sock src i).1
-  | .tick tx => (tick s tx).1
-  | .advance t => { s with now := s.now + t }
-
-def hrun (s : St) (evs : List HEv) : St := evs.foldl hstep s
-
-/-- a datagram event that is an unaccepted request -/
-def HEv.unauthRequest : HEv → Bool
-  | .pkt _ _ (.request r) => !r.accepted
+/-- is this event noise in the state it meets? -/
+def noiseAt (s : St) : HEv → Bool
+  | .pkt _ src i => noise s src i
   | _ => false
 
-theorem hstep_webrtc (s : St) (e : HEv) : (hstep s e).webrtc = s.webrtc := by
-  cases e with
-  | pkt sock src i =>
-    cases i with
-    | request r => simp [hstep, step]
-    | response tx er => simp only [hstep, step, handleResponse]; split <;> rfl
-    | data | undecodable | indication | empty => rfl
-  | tick tx => rfl
-  | advance t => rfl
+/-- the history with every noise event erased (each judged in the state it would have met) -/
+def eraseNoise (s : St) : List HEv → List HEv
+  | [] => []
+  | e :: es => if noiseAt s e then eraseNoise s es else e :: eraseNoise (hstep s e) es
 
-/-- **unauth_history_inert** (the property over histories, ticks included): in WebRTC mode, ERASING every
-unaccepted request from an arbitrary history of datagrams, keepalive ticks and clock advances does not
-change the resulting state at all — not the remote candidates, the selected pair, the nomination flag, the
-transport state (so no Disconnected → Connected through the liveness timer either), the published socket or
-the outstanding transactions. -/
-theorem unauth_history_inert (s : St) (evs : List HEv) (hw : s.webrtc = true) :
-    hrun s evs = hrun s (evs.filter (fun e => !e.unauthRequest)) := by
+/-- **unauth_history_inert** (the property over histories, ticks included): ERASING every noise event —
+unauthenticated requests, unmatched responses, garbage, indications and media from anyone but the selected
+peer — from an arbitrary history of datagrams, keepalive ticks and clock advances does not change the
+resulting state at all: not the remote candidates, the selected pair, the nomination flag, the transport
+state (so no Disconnected → Connected through the liveness timer either), the published socket or the
+outstanding transactions. -/
+theorem unauth_history_inert (s : St) (evs : List HEv) : hrun s evs = hrun s (eraseNoise s evs) := by
   induction evs generalizing s with
   | nil => rfl
   | cons e es ih =>
-    by_cases hu : e.unauthRequest = true
+    by_cases hu : noiseAt s e = true
     · have he : hstep s e = s := by
         cases e with
-        | pkt sock src i =>
-          cases i with
-          | request r =>
-            have hr : r.accepted = false := by simpa [HEv.unauthRequest] using hu
-            simp [hstep, unauth_request_inert_step s sock src r hw hr]
-          | response _ _ | data | undecodable | indication | empty => simp [HEv.unauthRequest] at hu
-        | tick _ => simp [HEv.unauthRequest] at hu
-        | advance _ => simp [HEv.unauthRequest] at hu
-      simp only [hrun, List.foldl_cons, he, List.filter_cons, hu, Bool.not_true, Bool.false_eq_true, ↓reduceIte]
-      exact ih s hw
-    · simp only [hrun, List.foldl_cons, List.filter_cons, hu, Bool.not_false, ↓reduceIte]
-      exact ih (hstep s e) (by rw [hstep_webrtc]; exact hw)
+        | pkt sock src i => exact stun_noise_is_identity s sock src i hu
+        | tick _ => simp [noiseAt] at hu
+        | advance _ => simp [noiseAt] at hu
+      simp only [hrun, List.foldl_cons, he, eraseNoise, hu, ↓reduceIte]
+      exact ih s
+    · simp only [hrun, List.foldl_cons, eraseNoise, hu, Bool.false_eq_true, ↓reduceIte]
+      exact ih (hstep s e)
 
-/-- what a keepalive tick can do: it looks only at state / mode / `now − last_received` / thresholds; it can
+/-- the same on RAW datagrams: a history of byte strings (each with its socket and source), ticks and clock
+advances; `sel` marks any set of datagrams that do not carry this session's credentials (`Credentials` is
+the specification on bytes; responses and media are not marked by it unless they also fail to be requests —
+see `hsel`). In WebRTC mode erasing the marked datagrams leaves the final state unchanged. -/
+inductive REv where
+  | pkt (sock : Sock) (src : Addr) (bytes : Bytes)
+  | tick (tx : Bytes)
+  | advance (t : Nat)
+
+def REv.toHEv (P : Prims) (ufrag pwd : Bytes) : REv → HEv
+  | .pkt sock src b => .pkt sock src (classify P ufrag pwd b)
+  | .tick tx => .tick tx
+  | .advance t => .advance t
+
+def rrun (P : Prims) (ufrag pwd : Bytes) (s : St) (evs : List REv) : St :=
+  hrun s (evs.map (REv.toHEv P ufrag pwd))
+
+/-- the marked datagram is a STUN request (decodes, class Request) without the session's credentials -/
+def REv.UnauthRequest (P : Prims) (ufrag pwd : Bytes) : REv → Prop
+  | .pkt _ _ b => (∃ r, classify P ufrag pwd b = .request r) ∧ ¬ Credentials P ufrag pwd b
+  | _ => False
+
+theorem unauth_history_inert_raw (P : Prims) (ufrag pwd : Bytes) (s : St) (evs : List REv) (sel : REv → Bool)
+    (hw : s.webrtc = true) (hsel : ∀ e ∈ evs, sel e = true → e.UnauthRequest P ufrag pwd) :
+    rrun P ufrag pwd s evs = rrun P ufrag pwd s (evs.filter (fun e => !sel e)) := by
+  unfold rrun
+  induction evs generalizing s with
+  | nil => rfl
+  | cons e es ih =>
+    have hes : ∀ e' ∈ es, sel e' = true → e'.UnauthRequest P ufrag pwd := fun e' h' => hsel e' (List.mem_cons_of_mem _ h')
+    by_cases hu : sel e = true
+    · have hreq := hsel e List.mem_cons_self hu
+      have he : hstep s (e.toHEv P ufrag pwd) = s := by
+        cases e with
+        | pkt sock src b =>
+          obtain ⟨⟨r, hr⟩, hno⟩ := hreq
+          have hacc : r.accepted = false := by
+            rw [classify_request_accepted P ufrag pwd b r hr]
+            cases h : codeAuth P ufrag pwd b with
+            | false => rfl
+            | true => exact absurd (codeAuth_sound P ufrag pwd b h) hno
+          simp only [REv.toHEv, hstep, hr]
+          rw [unauth_request_inert_step s sock src r hw hacc]
+        | tick _ => exact absurd hreq (by simp [REv.UnauthRequest])
+        | advance _ => exact absurd hreq (by simp [REv.UnauthRequest])
+      simp only [List.map_cons, hrun, List.foldl_cons, he, List.filter_cons, hu, Bool.not_true, Bool.false_eq_true, ↓reduceIte]
+      exact ih s hw hes
+    · simp only [List.map_cons, hrun, List.foldl_cons, List.filter_cons, hu, Bool.not_false, ↓reduceIte]
+      exact ih _ (by rw [hstep_webrtc]; exact hw) hes
+
+/-- what a keepalive tick can do (the first five conjuncts are the frame of the model's `tick` — true by its
+definition, listed so that the statement is complete; the content is in the last three): it looks only at state / mode / `now − last_received` / thresholds; it can
 move only a Connected or Disconnected WebRTC transport, and only to Connected, Disconnected or Failed; it
 never touches candidates, pair, nomination or socket; it registers at most its own transaction id. -/
 theorem tick_effects (s : St) (tx : Bytes) :
@@ -252,16 +289,61 @@ theorem tick_effects (s : St) (tx : Bytes) :
         · exact Nat.le_of_not_gt h3
     · rw [if_neg h1, hd] at hc; simp at hc
 
-/-- out of the property's letter (it speaks of STUN requests and responses), stated for honesty: a *media*
-datagram (first byte ≥ 2) from ANY source refreshes the liveness timestamp, so it can bring a Disconnected
-transport back to Connected at the next tick. The media path is authenticated by DTLS / SRTP above ICE,
-not here. -/
-theorem data_datagram_refreshes_liveness_witness :
-    let s : St := { role := .controlled, state := .disconnected, remotes := [], locals := [], selected := none,
-                    nominated := none, pending := [], latching := false, webrtc := true, now := 100000, lastRx := 0 }
+/-- what is NOT excluded, stated for honesty: traffic that is not part of a STUN transaction — a media
+datagram (first byte ≥ 2) or a Binding indication (the RFC 8445 §11 keepalive) — is unauthenticated at this
+layer and refreshes the liveness timestamp when its source address is the remote address of the selected
+pair; so whoever can send from (spoof) that address can keep the transport Connected or bring a
+Disconnected one back at the next tick. From every other address the same datagram is inert
+(`stun_noise_is_identity`). The media path is authenticated by DTLS / SRTP above ICE, not here. -/
+theorem peer_address_traffic_refreshes_liveness_witness :
+    let peer : Addr := .v4 [203, 0, 113, 66] 6666
+    let l : Cand := ⟨.v4 [127, 0, 0, 1] 1, .v4 [127, 0, 0, 1] 1, .host, false, false, 1, true⟩
+    let r : Cand := ⟨peer, peer, .host, false, false, 1, false⟩
+    let s : St := { role := .controlled, state := .disconnected, remotes := [r], locals := [l], selected := some ⟨l, r⟩,
+                    nominated := some true, pending := [], latching := false, webrtc := true, now := 100000, lastRx := 0 }
     (tick s []).1.state = .disconnected ∧
-    (tick (step s (.udp (.v4 [127, 0, 0, 1] 1)) (.v4 [203, 0, 113, 66] 6666) .data).1 []).1.state = .connected := by
+    (tick (step s (.udp (.v4 [127, 0, 0, 1] 1)) peer .data).1 []).1.state = .connected ∧
+    (tick (step s (.udp (.v4 [127, 0, 0, 1] 1)) peer .indication).1 []).1.state = .connected ∧
+    (tick (step s (.udp (.v4 [127, 0, 0, 1] 1)) (.v4 [198, 51, 100, 7] 6666) .data).1 []).1.state = .disconnected := by
   decide
+
+/-! ### known finding: the TCP stream table is written before authentication
+
+Full statement one would want (an unauthenticated TCP connection has no influence on where the agent sends for
+the selected pair): `∀ t L G X, resolveTcp (acceptTcp t L X) G L = resolveTcp t G L`. It is FALSE for the code
+(`tcp_stream_table_overwrite_witness`, reproduced on the implementation as
+`preauth:tcp-stream-table:{listen-loop,attach-demuxed}:…`, status `known`); what holds is `_partial`. -/
+
+/-- the genuine peer `G` connected to listener `L` and was nominated; a stranger `X` merely opens a TCP
+connection to `L`: `resolve_socket` for the pair (L, G) now yields the stranger's connection. -/
+theorem tcp_stream_table_overwrite_witness :
+    let L : Addr := .v4 [127, 0, 0, 1] 5000
+    let G : Addr := .v4 [203, 0, 113, 5] 40000
+    let X : Addr := .v4 [198, 51, 100, 66] 6666
+    ¬ (resolveTcp (acceptTcp (acceptTcp [] L G) L X) G L = resolveTcp (acceptTcp [] L G) G L) ∧
+    resolveTcp (acceptTcp (acceptTcp [] L G) L X) G L = some X := by
+  decide
+
+/-- what holds: a connection accepted on ANOTHER key (another listener, an outbound connection) does not
+change what is resolved for a pair whose peer's stream is in the table -/
+theorem tcp_stream_table_partial (t : TcpTable) (K L G X : Addr) (hk : K ≠ L)
+    (hg : (L, G) ∈ t) :
+    resolveTcp (acceptTcp t K X) G L = some G := by
+  have hmem : (L, G) ∈ t.filter (fun e => e.1 ≠ K) := by
+    simp only [List.mem_filter, ne_eq, decide_not, Bool.not_eq_eq_eq_not, Bool.not_true, decide_eq_false_iff_not]
+    exact ⟨hg, fun e => hk e.symm⟩
+  unfold resolveTcp acceptTcp storeTcpStream
+  have hfind : ∃ e, ((K, X) :: t.filter (fun e => e.1 ≠ K)).find? (fun e => e.2 = G) = some e := by
+    cases h : ((K, X) :: t.filter (fun e => e.1 ≠ K)).find? (fun e => e.2 = G) with
+    | some e => exact ⟨e, rfl⟩
+    | none =>
+      have := List.find?_eq_none.mp h (L, G) (List.mem_cons_of_mem _ hmem)
+      simp at this
+  obtain ⟨e, he⟩ := hfind
+  rw [he]
+  have := List.find?_some he
+  simp only [decide_eq_true_eq] at this
+  simp [this]
 
 /-- the credential check is sound: it accepts only datagrams whose FIRST USERNAME is `<ufrag>:…` and whose FIRST
 MESSAGE-INTEGRITY is the HMAC under the local password (`Credentials`; see its comment for the one respect
@@ -291,9 +373,9 @@ theorem unauth_request_inert (P : Prims) (ufrag pwd : Bytes) (s : St) (sock : So
         · rw [hacc, unauth_request_inert_step s sock src _ hw rfl]; simp [Inert]
         · exact (response_needs_pending s sock src _ false).2.2.1
         · exact (response_needs_pending s sock src _ true).2.2.1
-        · simp [step, Inert]
+        · simp only [step]; split <;> simp [Inert]
       · simp [step, Inert]
-    · simp [step, Inert]
+    · simp only [step]; split <;> simp [Inert]
 
 /-- **first_message_integrity_decides** (the malformed-credential shapes, for all values): in a datagram
 `20-byte header ++ attributes without MESSAGE-INTEGRITY ++ MESSAGE-INTEGRITY(value v) ++ anything`, the check
@@ -355,7 +437,7 @@ theorem request_effects_bounded (s : St) (sock : Sock) (src : Addr) (r : Req) :
     (step s sock src (.request r)).1.pending = s.pending ∧ (step s sock src (.request r)).1.role = s.role ∧
     (step s sock src (.request r)).1.locals = s.locals ∧
     ((step s sock src (.request r)).1.remotes = s.remotes ∨
-     (step s sock src (.request r)).1.remotes = s.remotes ++ [prflxCand sock src]) ∧
+     (step s sock src (.request r)).1.remotes = s.remotes ++ [prflxCand sock src r.priority]) ∧
     ((step s sock src (.request r)).1.nominated = s.nominated ∨ (step s sock src (.request r)).1.nominated = some true) ∧
     ((step s sock src (.request r)).1.state = s.state ∨ (step s sock src (.request r)).1.state = .connected) ∧
     (s.role = .controlling → s.latching = false →
@@ -389,7 +471,7 @@ def fresh (role : Role) (st : IceState) (webrtc : Bool) : St :=
   { role, state := st, remotes := [], locals := [hostCand (loopback 5000)], selected := none, nominated := none,
     pending := [], latching := false, webrtc }
 def stranger : Addr := .v4 [203, 0, 113, 66] 6666
-def unauth (uc : Bool) : Req := ⟨[0, 1, 2, 3, 4, 5, 6, 7, 8, 9, 10, 11], uc, false⟩
+def unauth (uc : Bool) : Req := { tx := [0, 1, 2, 3, 4, 5, 6, 7, 8, 9, 10, 11], useCandidate := uc, accepted := false }
 
 /-- **stranger_use_candidate_connects** — the defect as found (every mode), now only outside WebRTC mode:
 a controlled agent in state New receives ONE request without credentials carrying USE-CANDIDATE from an
@@ -405,8 +487,10 @@ theorem webrtc_stranger_use_candidate_inert :
     (step (fresh .controlled .new true) (.udp (loopback 5000)) stranger (.request (unauth true))).1 =
       fresh .controlled .new true := by decide
 
-/-- a media datagram changes nothing but the liveness timestamp -/
-theorem data_datagram_effect (s : St) (sock : Sock) (src : Addr) :
-    (step s sock src .data).1 = { s with lastRx := s.now } := rfl
+/-- a media datagram or a Binding indication changes nothing but the liveness timestamp, and that only when it
+comes from the selected peer address -/
+theorem data_datagram_effect (s : St) (sock : Sock) (src : Addr) (i : Inp) (hi : i = .data ∨ i = .indication) :
+    (step s sock src i).1 = if fromSelectedPeer s src then { s with lastRx := s.now } else s := by
+  rcases hi with rfl | rfl <;> rfl
 
 end RtcModel.Theorems.C06
